@@ -26,10 +26,10 @@ type Fn func(api frontend.API, in []frontend.Variable) []frontend.Variable
 
 // Circuit wraps a gadget; outputs are compared with the Out leaves.
 type Circuit struct {
-	In  []frontend.Variable
-	Out []frontend.Variable `gnark:",public"`
-	fn  Fn
-	pad int // number of dummy 32-bit range checks (commit checker needs many checks)
+	In    []frontend.Variable
+	Out   []frontend.Variable `gnark:",public"`
+	fn    Fn
+	pad   int  // number of dummy 32-bit range checks (commit checker needs many checks)
 	dummy bool // the gadget has no output: a constant-zero output keeps gnark's schema quiet
 }
 
